@@ -1,5 +1,7 @@
 package web
 
+//vp:use promstub
+
 // Shared harness scaffolding for package web (overlay only).
 
 import (
@@ -14,8 +16,6 @@ import (
 	"github.com/bolkedebruin/rdpgw/cmd/rdpgw/identity"
 	"github.com/bolkedebruin/rdpgw/shared/auth"
 	"github.com/google/uuid"
-	"github.com/prometheus/client_golang/prometheus"
-	dto "github.com/prometheus/client_model/go"
 	"google.golang.org/grpc"
 	"google.golang.org/grpc/credentials"
 )
@@ -32,12 +32,6 @@ import (
 //vp:all stub time.Until = vpUntil
 //vp:all stub time.Since = vpSince
 //vp:all stub (*net/url.URL).Query = vpURLQuery
-//vp:all stub github.com/prometheus/client_golang/prometheus.NewCounterVec = vpNewCounterVec
-//vp:all stub github.com/prometheus/client_golang/prometheus.NewCounter = vpNewCounter
-//vp:all stub github.com/prometheus/client_golang/prometheus.MustRegister = vpMustRegister
-//vp:all stub github.com/prometheus/client_golang/prometheus.Register = vpRegister
-//vp:all stub (*github.com/prometheus/client_golang/prometheus.CounterVec).WithLabelValues = vpCounterWithLabelValues
-//vp:all stub (*github.com/prometheus/client_golang/prometheus.CounterVec).With = vpCounterWith
 //vp:all stub (*net/http.Request).FormValue = vpFormValue
 //vp:all stub (*net/http.Request).PostFormValue = vpPostFormValue
 
@@ -224,31 +218,3 @@ func vpNow() time.Time {
 
 func vpHeaderValues(w *vpRW, key string) []string { return w.hdr[key] }
 
-// ---- metrics ----
-// What the package counts is published on the gateway's /metrics endpoint, label values included: a
-// label value is output of the gateway like a response body is. The stubs record them.
-var vpMetricLabels []string
-
-type vpCounter struct{}
-
-func (vpCounter) Desc() *prometheus.Desc            { return nil }
-func (vpCounter) Write(*dto.Metric) error           { return nil }
-func (vpCounter) Describe(chan<- *prometheus.Desc)  {}
-func (vpCounter) Collect(chan<- prometheus.Metric)  {}
-func (vpCounter) Inc()                              {}
-func (vpCounter) Add(float64)                       {}
-
-func vpNewCounterVec(o prometheus.CounterOpts, names []string) *prometheus.CounterVec { return nil }
-func vpNewCounter(o prometheus.CounterOpts) prometheus.Counter                        { return vpCounter{} }
-func vpMustRegister(cs ...prometheus.Collector)                                       {}
-func vpRegister(c prometheus.Collector) error                                         { return nil }
-func vpCounterWithLabelValues(v *prometheus.CounterVec, lvs ...string) prometheus.Counter {
-	vpMetricLabels = append(vpMetricLabels, lvs...)
-	return vpCounter{}
-}
-func vpCounterWith(v *prometheus.CounterVec, l prometheus.Labels) prometheus.Counter {
-	for _, lv := range l {
-		vpMetricLabels = append(vpMetricLabels, lv)
-	}
-	return vpCounter{}
-}
